@@ -102,6 +102,10 @@ type Manager struct {
 	lastPollTime   time.Time
 	nextPollTime   time.Time
 	pollTimer      *time.Timer
+	// wakeGen counts completed wakes (guarded by stateMu). A poll remembers
+	// the value it started under, so that it can tell after re-locking that
+	// the sleep it belonged to has ended, even if the agent sleeps again.
+	wakeGen uint64
 
 	// Deterministic windows
 	localID    identity.AgentID
@@ -319,6 +323,7 @@ func (m *Manager) Wake() error {
 
 	// Update state
 	m.state.Store(StateAwake)
+	m.wakeGen++
 	sleepDuration := time.Since(m.sleepStartTime)
 	m.sleepStartTime = time.Time{}
 	m.nextPollTime = time.Time{}
@@ -356,6 +361,7 @@ func (m *Manager) Poll() error {
 	// Transition to polling
 	m.state.Store(StatePolling)
 	m.lastPollTime = time.Now()
+	gen := m.wakeGen
 	m.stateMu.Unlock()
 
 	m.logger.Debug("starting poll")
@@ -377,8 +383,11 @@ func (m *Manager) Poll() error {
 	m.stateMu.Lock()
 	defer m.stateMu.Unlock()
 
-	// Check if we were woken during poll
-	if m.state.Load().(State) == StateAwake {
+	// Check if we were woken during poll. A wake followed by a new sleep
+	// leaves a non-awake state behind; the generation tells that this poll
+	// belongs to the earlier sleep and must not end the new one's poll,
+	// re-arm its timer or overwrite its state.
+	if m.state.Load().(State) == StateAwake || m.wakeGen != gen {
 		return nil
 	}
 
